@@ -165,6 +165,10 @@ impl<SVC: Service> CloudServer<SVC> {
 
     /// Generate a random integer in (0..255) for use in probabalistic decisions.
     fn randint(&self) -> Result<u8> {
+        #[cfg(gothenburgbitfactory_taskchampion_verif)]
+        if let Some(draw) = super::verif_store::next_draw() {
+            return Ok(draw);
+        }
         use rand::SecureRandom;
         let mut randint = [0u8];
         rand::SystemRandom::new()
@@ -385,6 +389,28 @@ impl<SVC: Service> CloudServer<SVC> {
             return Ok(None);
         };
         Ok(Some((version_id, name)))
+    }
+}
+
+#[cfg(gothenburgbitfactory_taskchampion_verif)]
+impl<SVC: Service> CloudServer<SVC> {
+    /// Construct a server from an already derived key, with the probabilistic cleanup off.
+    pub(in crate::server) fn verif_new(service: SVC, cryptor: Cryptor) -> Self {
+        Self {
+            service,
+            cryptor,
+            cleanup_probability: 0,
+            #[cfg(test)]
+            add_version_intercept: None,
+        }
+    }
+
+    pub(in crate::server) async fn verif_cleanup(&mut self) -> Result<()> {
+        self.cleanup().await
+    }
+
+    pub(in crate::server) fn verif_set_cleanup_probability(&mut self, probability: u8) {
+        self.cleanup_probability = probability;
     }
 }
 
